@@ -1,0 +1,23 @@
+//go:build verif
+
+package rtmp
+
+import "github.com/q191201771/lal/pkg/base"
+
+// Verification hooks (build tag verif) for back-pressure tests: add-only.
+
+// VerifSetWChanSize sets the size of the asynchronous write queue that a ServerSession gets once
+// play / publish has been answered and returns the previous value.
+func VerifSetWChanSize(n int) int {
+	old := wChanSize
+	wChanSize = n
+	return old
+}
+
+// VerifStartPlay puts a directly constructed ServerSession into the state in which doPlay leaves
+// it after the play command has been answered: a sub session whose connection has the
+// asynchronous write queue and the per-write timeout armed.
+func (s *ServerSession) VerifStartPlay() {
+	s.sessionStat.SetBaseType(base.SessionBaseTypeSubStr)
+	s.modConnProps()
+}
